@@ -20,6 +20,8 @@ CHECKS = {
                 tech="z3-term symbolic execution of tensordot/matmul/trace/einsum vs dense reference (SMT-decided polynomial identities)", ref="§4 C02", engine="B"),
     "C03": dict(text=B + " Reference: an independent dense graded-tensor calculus (inversion-count Koszul sign, ket-then-bra contraction sign, dummy odd legs, label canonicalisation). " + A, note=NOTE_B + " " + NOTE_A,
                 tech="z3-term symbolic execution of fermionic transpose/tensordot/@/trace/einsum vs graded-tensor oracle; CrossHair on calc_phase_permutation", ref="§4 C03", engine="B+A"),
+    "C04": dict(text=B + " Every contraction route / operand order / axis listing / pre-transpose of each enumerated network must give identical polynomials and labels, equal to an independent graded-tensor evaluation. " + A, note=NOTE_B + " " + NOTE_A + " For networks holding conjugate labels values are compared in the fully annihilated label normal form (the library may leave non-adjacent conjugate pairs on intermediates).",
+                tech="z3-term symbolic execution of chained fermionic tensordot over all routes vs graded oracle; CrossHair on label order and resolve_combined_oddpos", ref="§4 C04", engine="B+A"),
     "C05": dict(text=B + " Every input entry is a distinct variable; the oracle locates it through the result's own sub-index table; unfuse must restore every entry; insert and concat must agree. " + A, note=NOTE_B + " " + NOTE_A,
                 tech="z3-term symbolic execution of fuse/unfuse (both strategies, cache on/off) + CrossHair on calc_fuse_group_info/accum_for_split", ref="§4 C05", engine="B+A"),
     "C08": dict(text=B + " Each operation through every call route; an operation may raise (all routes alike) but never return another value.", note=NOTE_B,
